@@ -275,7 +275,8 @@ impl MultiReceiver {
             }
         }
 
-        self.alc_receiver.retain(|_, v| !v.is_expired());
+        // is_expired() reads a clock: remove exactly the sessions that are notified as closed
+        self.alc_receiver.retain(|k, _| !output.contains(k));
         for receiver in &mut self.alc_receiver.values_mut() {
             receiver.cleanup(now);
         }
